@@ -44,9 +44,21 @@ class Match:                     # "is not None" language of a variable (regex m
         self.d, self.pattern = d, pattern
 
 
+class MatchGen:                  # a generator of <regex>.fullmatch(s) over a table of regexes
+    def __init__(self, ds):
+        self.ds = ds
+
+
 class GroupDict:
     def __init__(self, m):
         self.m = m
+
+
+class Unknown:                    # a local whose value derives from the string under test in a way that is not modelled
+    pass
+
+
+UNKNOWN = Unknown()
 
 
 class Opaque(Exception):
@@ -91,6 +103,20 @@ class _SelfProxy:
         # a data attribute the constructor builds from the tables: self.X = <table expression> in __init__
         if ev is not None and not name.startswith("__"):
             cls = ctx.decoder_cls if (isdec or ev.cls in ctx.repo.subclasses("PVLDecoder")) else ev.cls
+            # a class-level constant (NAME = <literal / table expression> in a class body of the MRO)
+            for c in ctx.repo.mro(cls):
+                if c.startswith("ext:"):
+                    continue
+                ci = ctx.repo.classes[c]
+                if name in ci.methods:
+                    break
+                if name in ci.aliases:
+                    v = ci.aliases[name]
+                    try:
+                        return ast.literal_eval(v)
+                    except (ValueError, SyntaxError):
+                        sub = Eval(ctx, cls, c, {})
+                        return sub.conc(v)
             for c in ctx.repo.mro(cls):
                 if c.startswith("ext:"):
                     continue
@@ -105,9 +131,12 @@ class _SelfProxy:
         raise AttributeError(name)
 
 
-class Meth:                      # a bound method of self, from a literal tuple (self.a, self.b)
-    def __init__(self, name):
-        self.name = name
+class Meth:                      # a bound method of self (or of self.decoder), from a literal tuple (self.a, self.b) or an argument
+    def __init__(self, name, owner="self"):
+        self.name, self.owner = name, owner
+
+    def __repr__(self):
+        return f"Meth({self.owner}.{self.name})"
 
 
 STR = Str()
@@ -135,27 +164,26 @@ class Ctx:
         return self.subs[decoder_cls]
 
     def token_default_decoder(self):
-        """Class Token.__init__ instantiates when no decoder is passed (read from its AST)."""
-        init = self.repo.method("Token", "__init__")
-        for n in ast.walk(init):
-            if isinstance(n, ast.If) and ast.unparse(n.test) == "decoder is None":
-                for b in n.body:
-                    if isinstance(b, ast.Assign) and ast.unparse(b.targets[0]) == "self.decoder" and isinstance(b.value, ast.Call) \
-                            and isinstance(b.value.func, ast.Name):
-                        return b.value.func.id
-        raise Unsupported("cannot read the default decoder of Token.__init__")
+        """Class Token.__init__ instantiates when no decoder is passed (abstract interpretation of the constructor)."""
+        from . import ctor
+        g = ctor.Inst(type(self.grammar).__name__)
+        try:
+            return ctor.attr_class(self.repo, "Token", "decoder", content=ctor.Const("x"), grammar=g)
+        except AnalysisError as x:
+            raise Unsupported(str(x))
 
 
 def resolve(ctx, cls, name, after=None):
     return ctx.repo.resolve_method(cls, name, after=after)
 
 
-def run(cls, fname, ctx, after=None):
-    """Evaluate method *fname* resolved on class *cls* with the string as its value argument."""
+def run(cls, fname, ctx, after=None, bind=None):
+    """Evaluate method *fname* resolved on class *cls* with the string as its value argument.  *bind*: further
+    parameters bound to method references (a helper that is handed `self.decoder.decode_x`)."""
     defcls, fn = resolve(ctx, cls, fname, after)
     if fn is None:
         raise Unsupported(f"no method {cls}.{fname}")
-    key = (defcls, fname, cls)
+    key = (defcls, fname, cls) if not bind else (defcls, fname, cls, tuple(sorted((k, repr(v)) for k, v in bind.items())))
     if key in ctx.memo:
         if ctx.memo[key] is None:
             raise Unsupported(f"recursive predicate {cls}.{fname}")
@@ -168,8 +196,11 @@ def run(cls, fname, ctx, after=None):
     if cls == "Token" or defcls == "Token":
         env["self"] = STR                   # a Token *is* the string
     vparams = params if is_static else params[1:]
-    if vparams:
-        env[vparams[0]] = STR               # the value argument
+    for k, v in (bind or {}).items():
+        env[k] = Conc(v)
+    free = [p_ for p_ in vparams if p_ not in (bind or {})]
+    if free and not (bind and (cls == "Token" or defcls == "Token") and any(isinstance(v_, Meth) for v_ in bind.values())):
+        env[free[0]] = STR                  # the value argument
     ev = Eval(ctx, cls, defcls, env)
     try:
         out = ev.block(fn.body, EVERYTHING)
@@ -227,7 +258,7 @@ class Eval:
 
     def mentions_str(self, e):
         for n in ast.walk(e):
-            if isinstance(n, ast.Name) and isinstance(self.env.get(n.id), (Str, Match, Part, Folded)):
+            if isinstance(n, ast.Name) and (isinstance(self.env.get(n.id), (Str, Match, Part, Folded, Bool, Unknown)) or n.id == "$value"):
                 return True
         return False
 
@@ -279,6 +310,13 @@ class Eval:
             raise Unsupported("cond name " + e.id)
         if isinstance(e, ast.Compare) and len(e.ops) == 1:
             op, l, r = e.ops[0], e.left, e.comparators[0]
+            if isinstance(op, (ast.In, ast.NotIn)) and isinstance(r, ast.Name) and isinstance(self.env.get(r.id), GroupDict):
+                # 'group' in match.groupdict(): decided by the pattern (every named group is a key, matched or not)
+                gd = self.env[r.id]
+                if gd.m.pattern is None or not (isinstance(l, ast.Constant) and isinstance(l.value, str)):
+                    raise Opaque(ast.unparse(e))
+                has = l.value in re.compile(gd.m.pattern).groupindex
+                return reach if (has == isinstance(op, ast.In)) else EMPTY
             if isinstance(op, (ast.In, ast.NotIn)):
                 if self.is_str(r):                              # X in s
                     x = self.conc(l)
@@ -373,6 +411,8 @@ class Eval:
                     self.env = saved
                     return acc
                 raise Unsupported("any/all " + ast.unparse(e))
+            if isinstance(f, ast.Name) and f.id == "bool" and len(e.args) == 1 and not e.keywords:
+                return self.cond(e.args[0], reach)
             if isinstance(f, ast.Name) and f.id == "isinstance":
                 if self.is_str(e.args[0]):
                     return reach                                  # the value under test is a str
@@ -399,6 +439,10 @@ class Eval:
             # predicate / decoder method calls
             res = self.callfn(e)
             if res is not None:
+                if not (reach & res["V"]).empty():
+                    # the callee returns "some value" there (an expression the evaluator does not classify): its truth
+                    # is unknown -- never guess False
+                    raise Unsupported("truth value of " + ast.unparse(e)[:70] + " is not classified")
                 return reach & res["T"]
             raise Unsupported("cond call " + ast.unparse(e)[:70])
         raise Unsupported("cond " + ast.dump(e)[:80])
@@ -434,8 +478,34 @@ class Eval:
     def callfn0(self, e):
         f = e.func
         if isinstance(f, ast.Name) and isinstance(self.env.get(f.id), Conc) and isinstance(self.env[f.id].v, Meth) \
-                and len(e.args) == 1 and self.is_str(e.args[0]):
-            return run(self.cls, self.env[f.id].v.name, self.ctx)
+                and len(e.args) == 1 and not e.keywords and self.argkind(e.args[0]) is not None:
+            m = self.env[f.id].v
+            kind = self.argkind(e.args[0])
+            if m.owner == "decoder":
+                if resolve(self.ctx, self.ctx.decoder_cls, m.name)[1] is None:
+                    raise Unsupported(f"no method {self.ctx.decoder_cls}.{m.name}")
+                return transform(run(self.ctx.decoder_cls, m.name, self.ctx), kind)
+            return transform(run("Token" if isinstance(self.env.get("self"), Str) else self.cls, m.name, self.ctx), kind)
+        # self.<helper>(<method reference>, ...): a helper of the same object that is handed bound methods
+        if isinstance(f, ast.Attribute) and isinstance(f.value, ast.Name) and f.value.id == "self" and e.args and not e.keywords:
+            refs = []
+            for a in e.args:
+                src = ast.unparse(a)
+                if isinstance(a, ast.Attribute) and src.startswith("self.decoder.") and src.count(".") == 2:
+                    refs.append(Meth(a.attr, "decoder"))
+                elif isinstance(a, ast.Attribute) and src.startswith("self.") and src.count(".") == 1 \
+                        and resolve(self.ctx, "Token" if isinstance(self.env.get("self"), Str) else self.cls, a.attr)[1] is not None:
+                    refs.append(Meth(a.attr, "self"))
+                else:
+                    refs = None
+                    break
+            if refs:
+                cls = "Token" if isinstance(self.env.get("self"), Str) else self.cls
+                defcls, fn = resolve(self.ctx, cls, f.attr)
+                if fn is not None:
+                    params = [a.arg for a in fn.args.args][1:]
+                    if len(params) >= len(refs) and cls == "Token":
+                        return run(cls, f.attr, self.ctx, bind=dict(zip(params, refs)))
         if not isinstance(f, ast.Attribute):
             return None
         if e.args and isinstance(e.args[0], ast.Subscript) and isinstance(e.args[0].value, ast.Name) \
@@ -446,6 +516,23 @@ class Eval:
             return group_apply(gd.m.pattern, group, inner)
         recv = ast.unparse(f.value)
         recv_is_str = isinstance(f.value, ast.Name) and isinstance(self.env.get(f.value.id), Str)
+        # a method of the string object itself (Token) that takes only concrete arguments (tables, flags)
+        if recv == "self" and isinstance(self.env.get("self"), Str) and (e.args or e.keywords):
+            dcls_, fn_ = resolve(self.ctx, "Token", f.attr)
+            if fn_ is not None:
+                ps = [a.arg for a in fn_.args.args][1:]
+                try:
+                    b_ = {}
+                    for pname, a in list(zip(ps, e.args)) + [(k.arg, k.value) for k in e.keywords]:
+                        if pname not in ps:
+                            raise Unsupported("keyword")
+                        b_[pname] = self.conc(a)
+                        if hasattr(b_[pname], "__iter__") and not isinstance(b_[pname], (str, tuple, list, set, frozenset, dict)):
+                            b_[pname] = tuple(b_[pname])        # dict views and the like: a stable value
+                    if len(b_) == len(ps) or all(p_ in b_ for p_ in ps[:len(e.args)]):
+                        return run("Token", f.attr, self.ctx, bind=b_)
+                except Unsupported:
+                    pass
         # how does the argument derive from the string under test?
         if e.args:
             if isinstance(e.args[0], ast.Name) and e.args[0].id == "$value":
@@ -459,6 +546,30 @@ class Eval:
         else:
             return None
         res = None
+        # further arguments that are concrete (flags, tables) are bound to the callee's parameters
+        bind = None
+        if len(e.args) > 1 or e.keywords:
+            target_cls = None
+            if recv == "self":
+                target_cls = "Token" if isinstance(self.env.get("self"), Str) else self.cls
+            elif recv == "self.decoder":
+                target_cls = self.ctx.decoder_cls
+            if target_cls is None:
+                return None
+            dcls_, fn_ = resolve(self.ctx, target_cls, f.attr)
+            if fn_ is None:
+                return None
+            static_ = "staticmethod" in self.ctx.repo.classes[dcls_].decorators.get(f.attr, [])
+            ps = [a.arg for a in fn_.args.args]
+            ps = ps if static_ else ps[1:]
+            bind = {}
+            try:
+                for pname, a in list(zip(ps[1:], e.args[1:])) + [(k.arg, k.value) for k in e.keywords]:
+                    if pname is None or pname not in ps:
+                        return None
+                    bind[pname] = self.conc(a)
+            except Unsupported:
+                return None
         if recv == "self" or (recv_is_str and f.attr.startswith("is_")):
             cls = "Token" if (isinstance(self.env.get("self"), Str) or recv != "self") else self.cls
             if resolve(self.ctx, cls, f.attr)[1] is None:
@@ -466,11 +577,11 @@ class Eval:
             ctx = self.ctx
             if recv_is_str and isinstance(self.env.get(f.value.id), TokenStr):
                 ctx = self.ctx.with_decoder(self.env[f.value.id].decoder_cls)
-            res = run(cls, f.attr, ctx)
+            res = run(cls, f.attr, ctx, bind=bind)
         elif recv == "self.decoder":
             if resolve(self.ctx, self.ctx.decoder_cls, f.attr)[1] is None:
                 return None
-            res = run(self.ctx.decoder_cls, f.attr, self.ctx)
+            res = run(self.ctx.decoder_cls, f.attr, self.ctx, bind=bind)
         elif recv == "super()":
             res = run(self.cls, f.attr, self.ctx, after=self.defcls)
         elif recv.startswith("super(") and recv.endswith(", self)"):
@@ -501,10 +612,17 @@ class Eval:
             return self.stmt0(s, reach)
         except Unsupported:
             if self.ctx.options.get("$lenient") and isinstance(s, (ast.Assign, ast.AugAssign, ast.AnnAssign, ast.Expr)):
-                # a statement that does not depend on the string under test (may raise for other reasons)
+                # text-building statements of the writers (s = "{} = ".format(key.ljust(n)), s += ...) are not
+                # classified: the names they bind become UNKNOWN when they derive from the string under test (a later
+                # test on them is an error, never a guess); an expression statement on the string may raise -> not skipped
+                dep = self.mentions_str(s)
+                if isinstance(s, ast.Expr) and dep and isinstance(s.value, ast.Call) and isinstance(s.value.func, ast.Attribute) \
+                        and (ast.unparse(s.value.func.value) in ("self", "self.decoder", "super()")
+                             or ast.unparse(s.value.func.value).startswith("super(")):
+                    raise           # self.<check>(value): may refuse the string
                 for n in ast.walk(s):
                     if isinstance(n, ast.Name) and isinstance(n.ctx, ast.Store):
-                        self.env[n.id] = None
+                        self.env[n.id] = UNKNOWN if dep else None
                 return {"N": reach}
             raise
 
@@ -658,6 +776,10 @@ class Eval:
                         raise Unsupported(f"Token(..., decoder={d})")
                     self.env[t.id] = TokenStr(dcls)
                     return {"N": reach}
+                fm = self.first_match(v)
+                if fm is not None:
+                    self.env[t.id] = fm
+                    return {"N": reach}
                 if isinstance(v, ast.Call) and isinstance(v.func, ast.Attribute) and v.func.attr == "fullmatch":
                     if ast.unparse(v.func.value) == "re":
                         pat = self.fstring(v.args[0])
@@ -686,11 +808,33 @@ class Eval:
                     if not (res["ID"].empty()):
                         self.env[t.id] = STR
                     return {"N": reach & accepts(res), "E": reach & res["E"]}
+                if isinstance(v, ast.Attribute) and not self.mentions_str(v):
+                    # a local alias of a bound method: is_identifier = self.decoder.is_identifier
+                    src = ast.unparse(v)
+                    if src.startswith("self.decoder.") and src.count(".") == 2 \
+                            and resolve(self.ctx, self.ctx.decoder_cls, v.attr)[1] is not None:
+                        self.env[t.id] = Conc(Meth(v.attr, "decoder"))
+                        return {"N": reach}
+                    if src.startswith("self.") and src.count(".") == 1 and not isinstance(self.env.get("self"), Str) \
+                            and resolve(self.ctx, self.cls, v.attr)[1] is not None:
+                        self.env[t.id] = Conc(Meth(v.attr, "self"))
+                        return {"N": reach}
+                if isinstance(v, (ast.Tuple, ast.List)) and v.elts and all(
+                        isinstance(x, ast.Attribute) and isinstance(x.value, ast.Name) and x.value.id == "self"
+                        and resolve(self.ctx, "Token" if isinstance(self.env.get("self"), Str) else self.cls, x.attr)[1] is not None
+                        for x in v.elts):
+                    self.env[t.id] = Conc(tuple(Meth(x.attr) for x in v.elts))      # a named tuple of bound methods
+                    return {"N": reach}
+                if self.boolish(v) and self.mentions_str(v):
+                    # a named condition on the string under test: is_pointer = key.startswith("^") and ...
+                    self.env[t.id] = Bool(self.cond(v, reach))
+                    return {"N": reach}
                 try:
                     self.env[t.id] = Conc(self.conc(v))
                     return {"N": reach}
                 except Unsupported:
-                    self.env[t.id] = None          # opaque value not depending on classification
+                    # a value that does not depend on the string is opaque; one that does must never be guessed
+                    self.env[t.id] = UNKNOWN if self.mentions_str(v) else None
                     return {"N": reach}
             if isinstance(t, ast.Tuple):
                 if isinstance(v, ast.Call) and isinstance(v.func, ast.Attribute) and v.func.attr == "partition" \
@@ -730,7 +874,12 @@ class Eval:
             if m is not None:
                 return {"V": reach & m, "E": reach - m}
             if self.boolish(v):
-                t = self.cond(v, reach)
+                try:
+                    t = self.cond(v, reach)
+                except (Unsupported, Opaque):
+                    if self.ctx.options.get("$partial"):
+                        return {"V": reach}          # lower bounds only: what was decided before this point stands
+                    raise
                 return {"T": t, "F": reach - t}
             return {"V": reach}                                # some value, not classified further (e.g. q + s + q)
         if isinstance(s, ast.Raise):
@@ -811,7 +960,7 @@ class Eval:
             return True
         if isinstance(v, ast.Call):
             f = v.func
-            if isinstance(f, ast.Name) and f.id in ("any", "all", "isinstance"):
+            if isinstance(f, ast.Name) and f.id in ("any", "all", "isinstance", "bool"):
                 return True
             if isinstance(f, ast.Attribute) and (f.attr.startswith("is") or f.attr in ("startswith", "endswith")):
                 return True
@@ -841,12 +990,53 @@ class Eval:
             return merge(out, {"N": rest})
         raise Unsupported("char loop shape")
 
+    def match_gen(self, g):
+        """(<regex>.fullmatch(s) for <regex> in TABLE)  ->  list of DFAs (None entries of the table dropped)"""
+        if isinstance(g, ast.Name) and isinstance(self.env.get(g.id), MatchGen):
+            return self.env[g.id].ds
+        if isinstance(g, (ast.GeneratorExp, ast.ListComp)) and len(g.generators) == 1 and not g.generators[0].ifs \
+                and isinstance(g.generators[0].target, ast.Name):
+            el, var = g.elt, g.generators[0].target.id
+            if isinstance(el, ast.Call) and isinstance(el.func, ast.Attribute) and el.func.attr == "fullmatch" \
+                    and isinstance(el.func.value, ast.Name) and el.func.value.id == var and len(el.args) == 1 and self.is_str(el.args[0]):
+                table = list(self.conc(g.generators[0].iter))
+                return [rx(r.pattern) for r in table if r is not None]
+        return None
+
+    def first_match(self, v):
+        """next((m for m in <match generator> if m is not None), None): the first match over a table, or None"""
+        if isinstance(v, (ast.GeneratorExp, ast.ListComp)):
+            ds = self.match_gen(v)
+            return MatchGen(ds) if ds is not None else None
+        if not (isinstance(v, ast.Call) and isinstance(v.func, ast.Name) and v.func.id == "next" and len(v.args) == 2
+                and isinstance(v.args[1], ast.Constant) and v.args[1].value is None):
+            return None
+        g = v.args[0]
+        if isinstance(g, ast.GeneratorExp) and len(g.generators) == 1 and isinstance(g.elt, ast.Name) \
+                and isinstance(g.generators[0].target, ast.Name) and g.elt.id == g.generators[0].target.id \
+                and len(g.generators[0].ifs) == 1 and ast.unparse(g.generators[0].ifs[0]) == f"{g.elt.id} is not None":
+            ds = self.match_gen(g.generators[0].iter)
+            if ds is not None:
+                return Match(union(ds) if ds else EMPTY)
+        if isinstance(g, ast.Call) and isinstance(g.func, ast.Name) and g.func.id == "filter" and len(g.args) == 2 \
+                and isinstance(g.args[0], ast.Constant) and g.args[0].value is None:
+            ds = self.match_gen(g.args[1])
+            if ds is not None:
+                return Match(union(ds) if ds else EMPTY)
+        return None
+
     def fstring(self, e):
         """concrete pattern from implicit-concatenated / f-strings with grammar attributes"""
         if isinstance(e, ast.Constant):
             return e.value
         if isinstance(e, ast.JoinedStr):
             return "".join(v.value if isinstance(v, ast.Constant) else str(self.conc(v.value)) for v in e.values)
+        if isinstance(e, ast.BinOp) and isinstance(e.op, ast.Add):
+            return self.fstring(e.left) + self.fstring(e.right)
+        if isinstance(e, (ast.Attribute, ast.Name)):
+            v = self.conc(e)
+            if isinstance(v, str):
+                return v
         raise Unsupported("pattern")
 
     def libmodel(self, v):
